@@ -604,6 +604,10 @@ func TestPanicBehaviour(t *testing.T) {
 			w.n = 0
 			l.Panic().Msg("second, rejected: must still panic")
 		}, true, 0},
+		{"Panic() on the zero-value Logger", func() {
+			var z zerolog.Logger // no writer at all: every event is filtered, Panic still panics
+			z.Panic().Msg("boom")
+		}, true, 0},
 		{"Panic() under global Disabled", func() {
 			zerolog.SetGlobalLevel(zerolog.Disabled)
 			defer zerolog.SetGlobalLevel(zerolog.TraceLevel)
@@ -663,6 +667,9 @@ func child(c string) {
 		l := zerolog.New(io.Discard).Sample(&zerolog.BasicSampler{N: 2})
 		l.Info().Msg("takes the first slot")
 		l.Fatal().Msg("rejected by the sampler, must still exit")
+	case "fatal-zero":
+		var z zerolog.Logger
+		z.Fatal().Msg("bye")
 	case "fatal-global":
 		zerolog.SetGlobalLevel(zerolog.Disabled)
 		l := zerolog.New(os.Stdout)
@@ -697,6 +704,7 @@ func TestFatalBehaviour(t *testing.T) {
 		{"fatal-sampled", 1, ""},
 		{"fatal-sampled-second", 1, ""},
 		{"fatal-global", 1, ""},
+		{"fatal-zero", 1, ""},
 		{"withlevel-fatal", 0, "SURVIVED"},
 		{"withlevel-fatal-filtered", 0, "SURVIVED"},
 		{"info-after-fatal-pool", 0, "SURVIVED"},
